@@ -64,7 +64,7 @@ CHECKS = {
               "polynomial bound decided as a linear step budget with >50x headroom over genuine messages", "runtime monitoring with a sys.monitoring logical step budget, exception monitor and tracemalloc", "C15"),
     "C16": _c("exploration",
               "Noise prefixes (random, look-alikes, ending in 7D, truncated, abort sequences, over-long garbage, ident-like lines) + 2..40 clean messages with unique ids; the guaranteed set of the statement must be delivered valid, every clean message at most once, in order, byte-identical; returned frames must occur in the input.",
-              "an execution in which read() raised is counted and left to C14", "runtime monitoring: bounded-loss delivery oracle after injected noise", "C16"),
+              "an execution in which read() raised is reported here too (the clean messages were not delivered); whether read() may raise at all is C14's question", "runtime monitoring: bounded-loss delivery oracle after injected noise", "C16"),
     "C17": _c("fault_enumeration",
               "On a deterministic virtual-time event loop every outcome word (ok/fail/slow ok/slow fail) up to length 4 (quick) / 5 (thorough) x 2 lifetime modes is run with close() injected at EVERY loop iteration (first/last callback; thorough: every ready-queue position) and at the midpoint of every time gap; a trace checker decides one-connection, no-attempt-while-connected, bounded reconnect progress, task bound (also over 50 and 3000 cycle storms) and the close() guarantees from the recorded event log.",
               "CPython 3.12 BaseEventLoop semantics with a selector that never reports I/O; fake transport delivers connection_lost once via call_soon", "runtime trace checking on a virtual-time event loop with exhaustive close() injection (fault enumeration)", "C17"),
